@@ -43,6 +43,41 @@ def dump_graph(system):
     walk(system, "")
     return {"tables": tables, "objects": out, "components": comps}
 
+def dump_full(root):
+    """generic dump of everything reachable from the system object: every instance attribute of every
+    peppercompiler object (whoever attached it), containers in their iteration order, objects by identity
+    class; catches any attribute that a save/load round trip loses or changes"""
+    ids = {}; order = []
+    def is_obj(v):
+        return hasattr(v, "__dict__") and type(v).__module__.startswith("peppercompiler") and not isinstance(v, type)
+    def oid(o):
+        if id(o) not in ids:
+            ids[id(o)] = len(ids); order.append(o)
+        return ids[id(o)]
+    def canon(v, depth=0):
+        if v is None or isinstance(v, (bool, int, float, str)): return v
+        if depth > 40: return "<deep>"
+        if isinstance(v, dict):
+            return ["dict:" + type(v).__name__, [[canon(k, depth + 1), canon(x, depth + 1)] for k, x in v.items()]]
+        if isinstance(v, (list, tuple)):
+            return [type(v).__name__, [canon(x, depth + 1) for x in v]]
+        if isinstance(v, (set, frozenset)):
+            return ["set", sorted((json.dumps(canon(x, depth + 1), sort_keys=True, default=str) for x in v))]
+        if is_obj(v):
+            if hasattr(v, "__iter__") and not hasattr(v, "name"):     # ordered_set and friends
+                try: return ["iter:" + type(v).__name__, [canon(x, depth + 1) for x in v]]
+                except TypeError: pass
+            return {"obj": oid(v)}
+        if callable(v): return "<callable %s>" % getattr(v, "__name__", type(v).__name__)
+        return "<%s>" % type(v).__name__
+    oid(root)
+    out = []
+    i = 0
+    while i < len(order):
+        o = order[i]; i += 1
+        out.append({"id": ids[id(o)], "class": type(o).__name__, "attrs": [[a, canon(x)] for a, x in sorted(vars(o).items())]})
+    return out
+
 def main():
     spec = json.load(sys.stdin)
     sys.path.insert(0, spec["repo"])
@@ -66,6 +101,7 @@ def main():
             res.update(outcome="ok", text=open(job["out"]).read())
             if job.get("dump") and "obj" in captured:
                 res["memory_dump"] = dump_graph(captured["obj"])
+                res["memory_dump"]["full"] = dump_full(captured["obj"])
                 if job.get("finish_mfe"):
                     from peppercompiler import finish as F, kinetics as K
                     try:
@@ -90,6 +126,7 @@ def main():
         from peppercompiler import finish as F, kinetics as K
         o = C.load(r["save"])
         out = {"reloaded_dump": dump_graph(o)}
+        out["reloaded_dump"]["full"] = dump_full(o)
         if r.get("mfe"):
             buf = io.StringIO()
             try:
